@@ -41,7 +41,10 @@ MUTATORS = {'append', 'extend', 'insert', 'pop', 'remove', 'sort', 'reverse', 'c
             'intersection_update', 'symmetric_difference_update', 'subtract'}
 STORING = {'append', 'insert', 'add', 'appendleft', 'setdefault', '__setitem__', 'update', 'extend'}
 MUTATING_FUNCS = {'heappush': 0, 'heappop': 0, 'heapify': 0, 'heapreplace': 0, 'heappushpop': 0, 'shuffle': 0, 'insort': 0,
-                  'insort_left': 0, 'insort_right': 0, 'setattr': 0, 'setitem': 0, 'delitem': 0}
+                  'insort_left': 0, 'insort_right': 0, 'setattr': 0, 'setitem': 0, 'delitem': 0,
+                  # operator's in-place functions: iconcat(a, b) is a += b
+                  'iconcat': 0, 'iadd': 0, 'imul': 0, 'isub': 0, 'ior': 0, 'iand': 0, 'ixor': 0}
+INPLACE_OPERATORS = {'iconcat', 'iadd', 'imul', 'isub', 'ior', 'iand', 'ixor', 'setitem', 'delitem'}
 JUMPS = (ast.Return, ast.Raise, ast.Continue, ast.Break)
 
 
@@ -175,9 +178,30 @@ class Tr(object):
         out = []
         if e is None:
             return out
+        called = {id(n.func) for n in walk_expr(e) if isinstance(n, ast.Call)}
         for n in walk_expr(e):
+            if isinstance(n, ast.Attribute) and n.attr in MUTATORS and id(n) not in called and isinstance(n.ctx, ast.Load):
+                # a mutating method taken as a value (`grow = row.extend`, `map(buf.append, xs)`): whoever gets it may call it
+                if isinstance(n.value, ast.Name) and n.value.id == 'self':
+                    pass            # `self.reverse`, `self.update`: a field of the view itself, not a method of a row or table
+                elif isinstance(n.value, ast.Name):
+                    out.append(('mutate', n.value.id))
+                else:
+                    out += self.foreign_write()
             if isinstance(n, ast.Call):
                 f = n.func
+                if isinstance(f, ast.Name) and f.id == 'getattr' and len(n.args) >= 2 and isinstance(n.args[1], ast.Constant) \
+                        and n.args[1].value in MUTATORS:
+                    # getattr(x, 'extend'): a mutating method is what is fetched
+                    if isinstance(n.args[0], ast.Name) and n.args[0].id != 'self':
+                        out.append(('mutate', n.args[0].id))
+                    else:
+                        out += self.foreign_write()
+                if any((isinstance(a, ast.Name) and a.id in INPLACE_OPERATORS) or (isinstance(a, ast.Attribute) and a.attr in INPLACE_OPERATORS)
+                       for a in n.args):
+                    # reduce(operator.iconcat, parts) and the like: the in-place operator is applied to the other arguments' contents
+                    # — to the ELEMENTS of those arguments, whose owner this analysis does not track: a write to foreign data
+                    out += self.foreign_write()
                 if isinstance(f, ast.Attribute) and f.attr in MUTATORS:
                     base = f.value
                     if isinstance(base, ast.Name) and base.id != 'self':
